@@ -280,6 +280,7 @@ def run(chk: Check, only_numeric: bool = False) -> None:
         run_finally_return_register(chk, ix)
         run_lib_rt_sizes_and_signs(chk, ix, funcs)
         run_codec_fast_paths(chk, ix)
+        run_pending_return_test(chk, ix)
         pass_order(chk, ix)
 
 
@@ -839,3 +840,27 @@ def run_codec_fast_paths(chk: Check, ix) -> None:
     else:
         diff = {k: sorted(a.get(k, set()) ^ b.get(k, set())) for k in set(a) | set(b) if a.get(k) != b.get(k)}
         r.violation(key, m.functions["str_encode_fast_path"].loc(), f"the alias sets differ (separators ignored): {diff}")
+
+
+def run_pending_return_test(chk: Check, ix) -> None:
+    """R05.16: `was there a return` is not decided by comparing the return value with an error value it can legitimately equal."""
+    r = chk.rule("R05.16", "the try/finally lowerings (irbuild/statement.py) park the value of a `return` in ret_reg, whose type is the function's return type, and after the finally body test it with Branch.IS_ERROR. For a return type whose error value overlaps a real value (i64/i32/i16/u8: -113, float: -113.0 — RType.error_overlap) that test cannot tell `no return` from `return -113`, so a function that tests ret_reg this way also consults error_overlap (a separate flag, as arguments and attributes of such types have)", floor=2)
+    m = ix.module("mypyc.irbuild.statement")
+    n = 0
+    for f in m.functions.values():
+        tests = []
+        for c in ast.walk(f.node):
+            if isinstance(c, ast.Call) and call_name(c) == "Branch" and any(norm(a) == "Branch.IS_ERROR" for a in c.args) and c.args:
+                first = c.args[0]
+                if any(isinstance(x, ast.Name) and x.id in ("ret_reg", "ret_val") for x in ast.walk(first)):
+                    tests.append(c)
+        if not tests:
+            continue
+        n += 1
+        key = f"{f.name}: the pending-return test allows for return types with an overlapping error value"
+        if any(isinstance(x, ast.Attribute) and x.attr == "error_overlap" for x in ast.walk(f.node)):
+            r.ok(key, f.loc(tests[0]))
+        else:
+            r.violation(key, f.loc(tests[0]), "`Branch(<ret_reg>, ..., Branch.IS_ERROR)` is the only record of whether the try body returned: `def f(x: i64) -> i64: try: return x finally: pass; return 0` gives 0 for f(-113) (and 0.0 for the float twin with -113.0), CPython returns the argument")
+    if n < 2:
+        raise AnalysisError(f"statement.py: {n} pending-return tests found (expected the two try/finally lowerings)")
